@@ -528,6 +528,27 @@ def make_threads(seed, profile):
     or nested directories, with failing functions and duplicates; then an unchanged rebuild and a
     clean, all judged against the sequential contract."""
     rnd = random.Random('threads:%s' % seed)
+    if PROFILES[profile].get('p_dup', 0) > 0.5 and rnd.random() < 0.2:
+        # C08: the duplicate is implied by a cached subtree - one thread asks for a recorded subbuild / build_file
+        # whose record contains X, the other asks for X itself; both could be served from the cache
+        X = rnd.choice(THREAD_TARGETS)
+        progs = dict(THREAD_PROGS)
+        inner = {'s': 'bf', 'p': X, 'f': 'fW', 'args': [5], 'cmp': rnd.choice(['METADATA', 'HASH']), 'catch': True}
+        progs['sX'] = [dict(inner), {'s': 'return'}]
+        progs['bX'] = [dict(inner), {'s': 'write', 'c': 'c2', 'sz': 4}, {'s': 'return'}]
+        outer = rnd.choice([{'s': 'sb', 'f': 'sX', 'args': [1]}, {'s': 'bf', 'p': ['ox'], 'f': 'bX', 'args': [1], 'cmp': 'HASH'}])
+        direct = {k: v for k, v in inner.items() if k != 'catch'}
+        par = {'s': 'par', 'branches': [dict(outer), direct] if rnd.random() < 0.5 else [direct, dict(outer)], 'preempt': []}
+        # (the record stays valid, so the outer call is served - or rejected - as one step; an outer call that
+        # *executes* while the other thread claims X cannot be placed in a sequential order of whole calls)
+        steps = [{'op': 'build', 'name': 'B', 'vers': {}, 'root': [dict(outer, catch=True), {'s': 'return'}]}]
+        steps.append({'op': 'build', 'name': 'B', 'vers': {}, 'root': [par, {'s': 'return'}]})
+        seq = [dict(outer, catch=True), dict(direct, catch=True)]
+        steps.append({'op': 'build', 'name': 'B', 'vers': {}, 'root': (seq if rnd.random() < 0.5 else seq[::-1]) + [{'s': 'return'}]})
+        if rnd.random() < 0.6:
+            steps.append({'op': 'clean', 'name': 'B'})
+        return {'id': '%s-%d' % (profile, seed), 'cache': ['k'], 'universe': [], 'threads': True, 'prog': progs,
+                'steps': steps, 'combo': True}
     nb = rnd.choice([2, 2, 3])
     branches = []
     targets = rnd.sample(THREAD_TARGETS, nb)
